@@ -88,7 +88,8 @@ def collect(chk):
         g = rng.choice(gens)
         traces.append(_strip(stub.execute({"gen": g, "via": rng.choice(["direct", "main"]), "cfg": cfg, "jds": jds,
                                            "rng": ("seed", rng.randrange(1 << 30)), "as_custom": g == "motifs" and not custom,
-                                           "style": rng.randrange(4), "name_style": rng.randrange(3)})))
+                                           "style": rng.randrange(4), "name_style": rng.randrange(3),
+                                           "simple_builder": g != "motifs" and rng.random() < 0.5})))    # (per-edge naming callbacks need a fixed edge count)
     # the custom generator also accepts single-orbit configurations written for the fast one
     for i in range(60 if not thorough else 400):
         cname = rng.choice(["f_edge_tri", "f_mix4", "f_k4_cyc5", "f_single_path"])
